@@ -133,7 +133,49 @@ func hmacKeyRaw(c *Ctx, rule string, rels ...string) {
 			}
 			return false, "a part of the key (" + valName(v) + ")"
 		}
+		// make + copy(buf, key): a copy
+		if mk, isMk := v.(*ssa.MakeSlice); isMk {
+			var src ssa.Value
+			nCopies, other := 0, false
+			for _, ref := range *mk.Referrers() {
+				switch x := ref.(type) {
+				case *ssa.Call:
+					if b, isB := x.Call.Value.(*ssa.Builtin); isB && b.Name() == "copy" && guard.Strip(x.Call.Args[0]) == v {
+						src = x.Call.Args[1]
+						nCopies++
+					}
+				case *ssa.Store:
+					if _, isIA := x.Addr.(*ssa.IndexAddr); isIA {
+						other = true
+					}
+				case *ssa.IndexAddr:
+					for _, r2 := range *x.Referrers() {
+						if _, isSt := r2.(*ssa.Store); isSt {
+							other = true
+						}
+					}
+				}
+			}
+			if nCopies == 1 && !other {
+				return plain(f, src, depth+1)
+			}
+			return false, "a buffer not filled by one copy of the key"
+		}
 		if call, _ := guard.CallOf(v); call != nil {
+			if b, isB := call.Call.Value.(*ssa.Builtin); isB && b.Name() == "append" && len(call.Call.Args) == 2 {
+				// append(empty, key...)
+				base := guard.Strip(call.Call.Args[0])
+				empty := guard.IsNilConst(base)
+				if mk, isMk := base.(*ssa.MakeSlice); isMk {
+					if k, isK := guard.ConstInt(mk.Len); isK && k == 0 {
+						empty = true
+					}
+				}
+				if empty {
+					return plain(f, call.Call.Args[1], depth+1)
+				}
+				return false, "key material appended to other bytes"
+			}
 			n := guard.CalleeName(&call.Call)
 			switch {
 			case n == "bytes.Clone" || n == "slices.Clone":
